@@ -79,6 +79,7 @@ class Wrapper:
         self.rows = []
         chk.saw(body)
         eng = common.mk_engine(fb, no_inline=_no_shm)
+        self.engine = eng
         paths = [p for p in eng.run(body) if p.kind != 'unreachable']
         chk.analysed['paths'] += len(paths)
         for p in eng.inlined:
@@ -122,10 +123,16 @@ class Wrapper:
                 out = ('ok', describe(f[0]), describe(f[1]), st)
         elif p.kind == 'return':
             # C: error path stores into (*ctx).err and returns its address; ok path writes *output
+            # the error record is whatever the returned pointer points to (a field of *ctx, whatever its name)
             errv = None
-            for k, v in p.state.store.items():
-                if k[0][0] == 'S' and k[1] and k[1][-1][2] == 'err' and v[0] == 'agg':
-                    errv = v
+            if p.value[0] == 'ref':
+                pv = self.engine.load(p.state, p.value[1])
+                if pv[0] == 'agg':
+                    errv = pv
+            if errv is None:
+                for k, v in p.state.store.items():
+                    if k[0][0] == 'S' and k[1] and k[1][-1][2] == 'err' and v[0] == 'agg':
+                        errv = v
             w = [ef for ef in calls if ef['callee'].endswith('::write') and len(ef['args']) == 2 and ef['args'][1][0] == 'agg']
             if stage is not None and errv is not None:
                 f = errv[3]
